@@ -175,6 +175,10 @@ func (m *storeMonitor) onStore(fr *frame, instr *ssa.Store, addr *value) {
 		m.SharedStores++
 		return
 	}
+	if instr == nil {
+		m.report(fr, "", "reflect.Value.Set in "+fr.callerPos())
+		return
+	}
 	m.report(fr, fr.i.prog.Fset.Position(instr.Pos()).String(), fmt.Sprintf("%s in %s", instr, fr.fn))
 }
 
